@@ -167,6 +167,53 @@ def cleanupPhase (ts : TS) : COut :=
   let o := runStack (stackSize ts1.cleanups) ts1
   { o with evs := Ev.cleanupBegin :: ev1 ++ o.evs ++ [Ev.cleanupEnd] }
 
+/-! ### tracebacks of panics raised while another panic is in flight
+
+  `T.cleanup` runs as a deferred call: when the body panicked (with anything, `invalidData`
+  included) its frames are still on the stack while the callbacks run, and when a callback panics
+  the remaining ones are run from a deferred re-entry *on top of* that callback's frames.  The
+  traceback rapid compares (`panicToError`: the stack up to `checkOnce`) of a panic raised by a
+  callback therefore contains the panic sites of everything that panicked before it in this test
+  case.  The model's `site` of such an error is the pair (context, own site), the context being
+  the sequence of those earlier errors. -/
+
+def strCode (m : String) : Nat := m.foldl (fun h c => (h * 31 + c.toNat) % 999983) 7
+
+def errCode : Err → Nat
+  | .invalid m => 1000000 + strCode m
+  | .stop _ s => s
+  | .panic _ s => s
+  | .fuel => 0
+
+def ctxStep : Nat := 2000003
+
+/-- the context after one more error is in flight -/
+def ctxPush (cx : Nat) (e : Err) : Nat := cx * ctxStep + errCode e + 1
+
+/-- an error raised with context `cx` below it on the stack -/
+def Err.nest (cx : Nat) : Err → Err
+  | .stop m s => .stop m (s + ctxStep * cx)
+  | .panic m s => .panic m (s + ctxStep * cx)
+  | e => e
+
+/-- the errors thrown by the callbacks of `runStack`, in order -/
+def runStackErrs : Nat → TS → List Err
+  | 0, _ => []
+  | fuel+1, ts =>
+    match ts.cleanups with
+    | [] => []
+    | c :: rest =>
+      let o1 := c.run { ts with cleanups := rest }
+      (match o1.err with | some e => [e] | none => []) ++ runStackErrs fuel o1.ts
+
+/-- the context of the LAST error thrown by a callback of `T.cleanup()` on `ts`, when the call
+    it cleans up after ended with `res` -/
+def cleanupCtx (res : Except Err Val) (ts : TS) : Nat :=
+  let ts1 : TS := match ts.ctx with | some _ => { ts with ctx := none } | none => ts
+  let errs := runStackErrs (stackSize ts1.cleanups) ts1
+  let cx0 := match res with | .error e => ctxPush 0 e | .ok _ => 0
+  errs.dropLast.foldl ctxPush cx0
+
 def groupAssertMsg : String := "group did not use any data from bitstream"
 def siteGroupAssert : Nat := 9001
 
@@ -216,7 +263,7 @@ def Prog.run : Prog → Src → TS → Out
       let ts' : TS := { ts with failed := failed }
       let evs := Ev.innerBegin :: o.evs ++ c.evs ++ [Ev.innerEnd]
       match c.err with
-      | some e => { o with res := .error e, ts := ts', evs := evs }
+      | some e => { o with res := .error (e.nest (cleanupCtx o.res o.ts)), ts := ts', evs := evs }
       | none =>
         match o.res with
         | .error _ => { o with ts := ts', evs := evs }
